@@ -28,6 +28,7 @@ whether the escapes of a string decode is decided here with `re` / `codecs`
 (not through textX) and passed along.
 """
 import copy
+import os
 import re
 
 from harness import gen_grammar as G
@@ -133,7 +134,8 @@ TOKENS = ["A", "B", "Model", "R1", "R2", "INT", "ID", "STRING", "OBJECT", "BASET
           "'a'", "'b'", "','", "''", "/x/", "/(/", r"/\d+/", "eolterm", "skipws", "noskipws", "ws", "ws='x'", "split",
           "a", "b", "name", "parent", "a=", "b+=", "c*=", "d?=", "[A]", "[Model]", "[A:ID]", "[A|ID]", "[A:ID|a]",
           "[A:ID|^a*.b]", "[A:ID|+m:a]", "[INT]", "[x.Y]", "import", "reference", "foo", "as", r"'\xZZ'", r"'\n'",
-          "__asgn_x", "//c\n", "/*c*/", "/", "'", '"']
+          "__asgn_x", "//c\n", "/*c*/", "/", "'", '"', "\t", "\r\n", "\u00e9", "\x00", "\ufeff", "/(?i)a/", "/a(?i)b/",
+          "'\u00e9'", "\u00c9: 'x';"]
 
 TOKEN_RE = re.compile(
     r"""\s+|//[^\n]*|/\*.*?\*/|'(?:\\'|[^'])*'|"(?:\\"|[^"])*"|/(?:\\/|[^/\n])*/|[\w.]+|\+=|\*=|\?=|.""", re.S)
@@ -788,9 +790,9 @@ class Prop(Check):
     ]
     DRIVER = "Drivers/GramLoad.lean"
     QUICK_CASES = 1200
-    THOROUGH_CASES = 60000
-    PROCS_QUICK = 2
-    PROCS_THOROUGH = 4
+    THOROUGH_CASES = 30000
+    PROCS_QUICK = min(2, int(os.environ.get("VERIF_PROCS", "2")))
+    PROCS_THOROUGH = int(os.environ.get("VERIF_PROCS", "4"))
     CASE_TIMEOUT = 20
     RULE = ("grammar texts: valid generated grammars (gen_grammar), 1-3 AST-level mutations of them (17 operators: undefined / "
             "dropped / duplicated rules, alias cycles, invalid regexes and escapes, bad rule parameters and modifiers, bool "
